@@ -53,7 +53,7 @@ CHECKS = {
             "names as uninterpreted atoms; the nodes' real interface dicts fork on nic-name equality so aliasing of nic roles is covered. "
             "Every generated left/right parameter is compared with the documented counterpart table by a validity query over the atoms "
             "(definedness included); unsupported types must raise ValueError. connects_nodes is run in both argument orders over three "
-            "nodes with the netconfig membership predicates as solver variables. Exhaustive within these bounds (56k paths, 0.9M queries)."
+            "nodes with the netconfig membership predicates as solver variables. Every path starts from the class-level state the module was imported with and first builds a solver-chosen predecessor tunnel of another kind (tunnels are built in sequence in one process). Exhaustive within these bounds (220k paths, 3.5M queries)."
         ),
         note="vm platform/interfaces are stubs carrying atoms; for connects_nodes the tunnel netconfigs are stubs with symbolic predicates, a misconfiguration IndexError is not compared. Trusted: symx, z3, the counterpart table written from the constructor's docstring.",
         design="DESIGN.md §1 C19",
@@ -82,8 +82,8 @@ def _trav(pid, what, extra=""):
 CHECKS.update({
     "C01": _trav("C01", "Monitor: at every start, each required non-root state of a non-permanent object is in the worker's own pool or in a pool the test is instructed and permitted to read, unless its producer (or the object's creation) was attempted in this run and did not pass; evaluated on the store model; in the 'composed' plans the same question is answered by the real states.setup.get_states running over the real SourcedStateBackend/RootSourcedStateBackend with the parameters the traversal handed to the test (only the storage is the model), and the agreement of both oracles is counted in the evidence."),
     "C02": _trav("C02", "Monitor: every coroutine returns without exception, no livelock (all live workers backing off with nobody running) and no step-bound overrun; every selected compatible test was executed and no result is left UNKNOWN; a dry run executes nothing and makes no state request. Outcomes include 'never reported' (also: no result is ever reported, unbounded); virtual-time plans let executions hang up to 5 x test_timeout so that a waiting worker exhausts its wait budget and joins in."),
-    "C03": _trav("C03", "Monitor: executions grouped by worker-invariant name and reuse scope (global / per swarm / per worker from pool_scope and spawner) never exceed max(1, max_tries); a setup test whose states were all found at its first examination is not executed in that scope; clone sources and flat tests never execute."),
-    "C04": _trav("C04", "Monitor: executions of one test (the two creation steps of an object counted as one) by different workers of a scope overlap at most max_concurrent_tries times; no worker enters between the two creation steps of another. In addition to choice mode, virtual-time plans give every execution a symbolic real duration in (0, test_timeout) and let the solver decide the order of wake-ups (one path = one feasible event order for all durations consistent with it), which covers the back-off budget arithmetic; those plans are capped by time and report exhaustive=false when not completed."),
+    "C03": _trav("C03", "Monitor: executions grouped by worker-invariant name and reuse scope (global / per swarm / per worker from pool_scope and spawner) never exceed max(1, max_tries); a setup test whose states were all there at its first examination (judged from the store model for the states the test produces, not from how the code phrased its request) is not executed in that scope; clone sources and flat tests never execute. One plan makes the runner's polling for a late result a scheduling point."),
+    "C04": _trav("C04", "Monitor: executions of one test (the two creation steps of an object counted as one) by different workers of a scope overlap at most max_concurrent_tries times (the configured value, not the node parameter the traversal raises when it lets a worker in); no worker enters between the two creation steps of another. In addition to choice mode, virtual-time plans give every execution a symbolic real duration in (0, test_timeout) and let the solver decide the order of wake-ups (one path = one feasible event order for all durations consistent with it), which covers the back-off budget arithmetic; those plans are capped by time and report exhaustive=false when not completed."),
     "C05": _trav("C05", "Monitor: every unset request addresses a state marked removable (unset_mode f.), is issued while no execution needing or producing it runs and no dependant starts afterwards (incl. dependants another worker expanded lazily, removal marks given per image or as mode 'fa'); with pool_filter=reuse no copy (get) request is made while backing out."),
     "C08": _trav("C08", "Monitor: at every start the executing worker is the node's net with its own nets_* parameters and is not excluded by restrictions; for each required state the named sources are exactly the shared pool plus the workers that produced it in this run (PASS/WARN), with those workers' access parameters (also for a retried test whose producer finished between its tries); with runtime slots the connection parameters equal an independent reference of the documented slot meaning; state control requests go through the acting worker's own connection."),
     "C06": dict(
@@ -163,7 +163,7 @@ CHECKS.update({
               "Kernels (validity queries for all 2^32 addresses x 33 prefix lengths): mask_bit setter/getter round trip, _get_network_ip = ip & mask, translate_address = target network | host offset "
               "with no integer wrap for every host of the source subnet, get_allocatable_address hands out network+offset once each then IndexError. Model: the real VMNetwork.__init__/integrate_node/"
               "reattach_interface on stub vms (1..2 (3) vms x 1..2 nics, prefix lengths 8/16/24/30, arbitrary distinct host addresses): every interface is in exactly one registered netconfig whose subnet "
-              "contains its address, registry keys equal network addresses, one registration per interface under its own address, no duplicate addresses - also after reattachments. Exhaustive."),
+              "contains its address, registry keys equal network addresses, one registration per interface under its own address, no duplicate addresses - also after reattachments; static addresses may lie inside or outside the DHCP pool (decided once per path); a rejected construction must be explained by two interfaces with conflicting netmasks (validity query over all address assignments of the path); exhaustion may only be reported when the pool can be used up. The allocation kernel goes through the real from_interface with a configured range. Exhaustive."),
         note="Trusted: the ipaddress shim (IPv4Address, ip_interface, network/netmask semantics). Counterexamples are replayed with the real ipaddress module and the model's concrete addresses.",
         design="DESIGN.md §1 C18"),
 })
@@ -176,7 +176,7 @@ CHECKS.update({
         text=("(a) the real Manu.run with command line parsing and tool loading stubbed and the chain steps replaced by stubs whose outcome (None, 0, 1, raises) is solver-chosen, chains of length <= 3 (4) incl. a repeated step: "
               "every step is called once per occurrence, in order, with tag 0m<i>, return code 1 iff some step failed (exhaustive). (b) the graphs the real _parse_and_iterate_for_objects_and_workers / "
               "_parse_one_node_for_all_objects_per_worker build for get/unset/boot (thorough: check/set/push/pop/shutdown, restricted worker) are traversed under solver-chosen schedules and outcomes: exactly one "
-              "execution per (selected vm, compatible worker) carrying the step's parameters and vm_action, none for unselected vms."),
+              "execution per (selected vm, compatible worker) carrying the step's parameters and vm_action (a parameter given for one vm is that vm's effective value), none for unselected vms; the dictionary the chain's steps share is left as found, also when the tool's environment fails to start."),
         note="Step functions and the command line front end are stubs in (a); (b) shares the traversal trusted base; vm selections and worker sets from a menu (L1).",
         design="DESIGN.md §1 C20", engine="symx+vsched"),
 })
